@@ -275,8 +275,9 @@ def explore_step(state, initial, shapes0, names, target, d, search_limit=25, con
         draws[0] += 1
         if draws[0] > max_draws:
             engine.cut_now("deviation bound")
-        # DrawSet contents must mirror the working graph's edge set at every draw
-        if registry.copies:
+        # DrawSet contents must mirror the working graph's edge set at every draw (only observable when the draw
+        # is a choice over the member list)
+        if kind == "choice" and registry.copies:
             G = registry.copies[-1]
             want = {tuple(sorted(e)) for e in G.edges()}
             if set(seq) != want or len(seq) != len(want):
